@@ -102,6 +102,21 @@ pub const EXTRA_VALID: &[&str] = &[
     "gphase ( pi / 4 ) ;",
     "for uint i in { 1 , 2 , 3 } a = i ;",
     "for int i in m { }",
+    // an expression as iterable, followed by a body without curlies of every statement start
+    "for int i in m x r ;",
+    "for int i in m a = i ;",
+    "for int i in m f1 ( i ) ;",
+    "for int i in m inv @ x r ;",
+    "for int i in m if ( a ) x r ;",
+    "for int i in m [ 0 : 2 ] x r ;",
+    "for int i in m reset r ;",
+    // old-style registers: the designator is optional
+    "qreg q1 ;",
+    "creg c2 ;",
+    "qreg q3 [ 2 ] ;",
+    "creg c4 [ 2 ] ;",
+    "def f9 ( qreg q , creg c ) { }",
+    "def f8 ( qreg q [ 2 ] , creg c [ 3 ] ) { }",
     "for bit b1 in m { }",
     "for int [ 8 ] i in [ 0 : 2 : 8 ] { }",
     "switch ( a ) { case 1 { } case 2 , 3 { } default { } }",
@@ -141,9 +156,17 @@ pub const EXTRA_VALID: &[&str] = &[
     "nop $1 , $2 ;",
 ];
 
+/// EXTRA_VALID plus every well-formed lexeme in the positions where the grammar takes it.
+pub fn extra_valid_all() -> Vec<String> {
+    let mut v: Vec<String> = EXTRA_VALID.iter().map(|s| s.to_string()).collect();
+    v.extend(crate::props::c15::lexeme_context_texts().into_iter().filter(|(_, standard)| *standard).map(|(t, _)| t));
+    v
+}
+
 fn extra_texts() -> Vec<String> {
     let mut v = Vec::new();
-    for t in EXTRA_VALID {
+    for t in extra_valid_all() {
+        let t = t.as_str();
         for (pre, post) in [("", ""), ("int pre ; ", ""), ("", " int post ;"), ("if ( true ) { ", " }"), ("while ( a ) { int pre ; ", " a ; }")] {
             // definitions stay at the top level
             let top_only = t.starts_with("def ") || t.starts_with("extern ") || t.starts_with("defcal") || t.starts_with("cal ") || t.starts_with("input ") || t.starts_with("output ") || t.starts_with("qreg") || t.starts_with("creg") || t.starts_with("return");
